@@ -22,6 +22,7 @@
 import json
 import os
 import random
+import re
 
 from harness import tlc
 from harness.framework import run_check, MachineryError, VERIF
@@ -49,16 +50,37 @@ def run_table(ctx, table, variant='code', emit=False, two=True,
     finally:
         os.remove(os.path.join(SPEC, name))
         tlc.cleanup(tag)
-    ctx.require_tlc_ok(f'SigCert {table} variant={variant}', res,
-                       expect_violation=expect_violation)
+    if ctx is not None:
+        ctx.require_tlc_ok(f'SigCert {table} variant={variant}', res,
+                           expect_violation=expect_violation)
     return res
+
+
+_FIELD = re.compile(r'(\w+) \|->')
+
+
+def fast_value(text):
+    """TLA+ ToString output -> Python via JSON (the generic parser of
+    harness/tlc.py is too slow for 10^5 rows); sets become {'$set': [...]}."""
+    t = _FIELD.sub(r'"\1":', text)
+    t = t.replace('{', '\x01').replace('}', '\x02')
+    t = t.replace('[', '{').replace(']', '}')
+    t = t.replace('<<', '[').replace('>>', ']')
+    t = t.replace('\x01', '{"$set":[').replace('\x02', ']}')
+    t = t.replace('TRUE', 'true').replace('FALSE', 'false')
+    return json.loads(t)
 
 
 def rows_of(res):
     out = []
-    for v in tlc.printed_values(res):
-        if isinstance(v, str) and v.startswith('<<'):
-            v = tlc.parse_value(v)      # rows are printed with ToString
+    for line in res.printed:
+        if not line.startswith('"<<'):
+            continue
+        text = json.loads(line)         # rows are printed with ToString
+        try:
+            v = fast_value(text)
+        except ValueError:
+            v = tlc.parse_value(text)
         if isinstance(v, list) and len(v) == 3 and isinstance(v[0], dict):
             out.append((unset(v[0]), v[1], v[2]))
     return out
@@ -124,22 +146,32 @@ def main(ctx):
             exc_hist[k] = exc_hist.get(k, 0) + 1
 
     # ---- 1. TLC: tables, equivalence, sensitivity --------------------------
-    res_cert = run_table(ctx, 'cert', emit=True)
-    res_sig = run_table(ctx, 'sshsig', emit=True, two=True)
-    res_ver = run_table(ctx, 'verify', emit=True)
-    res_ident = run_table(ctx, 'ident', emit=True)
-    res_cross = run_table(ctx, 'cross', emit=True)
     sens = [('cert', 'closed_before'), ('sshsig', 'ignore_namespace'),
-            ('ident', 'empty_is_none'), ('cross', 'SharedNameSet')]
+            ('ident', 'empty_is_none'), ('ident', 'NegOnlyMatchesAll'),
+            ('cross', 'SharedNameSet')]
     if not quick:
         sens += [('cert', 'no_principal'), ('cert', 'accept_unknown_critical'),
                  ('verify', 'ignore_algname'), ('verify', 'normalise_sig'),
                  ('ident', 'strip_compare'),
                  ('ident', 'lower_compare'), ('ident', 'before_truthy'),
                  ('ident', 'closed_before'), ('sshsig', 'before_truthy')]
-    for table, variant in sens:
-        run_table(ctx, table, variant=variant, two=False,
-                  expect_violation='Equiv')
+    from concurrent.futures import ThreadPoolExecutor
+    with ThreadPoolExecutor(max_workers=4) as ex:
+        emit_f = {t: ex.submit(run_table, None, t, emit=True, workers=1)
+                  for t in ('cert', 'sshsig', 'verify', 'ident', 'cross')}
+        sens_f = [(t, v, ex.submit(run_table, None, t, variant=v, two=False,
+                                   expect_violation='Equiv', workers=2))
+                  for t, v in sens]
+        emit_r = {t: f.result() for t, f in emit_f.items()}
+        sens_r = [(t, v, f.result()) for t, v, f in sens_f]
+    for t, res in emit_r.items():
+        ctx.require_tlc_ok(f'SigCert {t} variant=code', res)
+    for t, v, res in sens_r:
+        ctx.require_tlc_ok(f'SigCert {t} variant={v}', res,
+                           expect_violation='Equiv')
+    res_cert, res_sig, res_ver = emit_r['cert'], emit_r['sshsig'], \
+        emit_r['verify']
+    res_ident, res_cross = emit_r['ident'], emit_r['cross']
     cert_rows = rows_of(res_cert)
     sig_rows = rows_of(res_sig)
     ver_rows = rows_of(res_ver)
@@ -172,6 +204,8 @@ def main(ctx):
         # (round robin); thorough: every algorithm for every class
         if only.rp is not None:
             use = [a for a in algs if only.alg(a[0])]
+        elif quick and cls[4] == 'bad':
+            use = [algs[ci % len(algs)]]
         elif quick:
             use = [algs[0], algs[1 + ci % (len(algs) - 1)]]
         else:
@@ -341,6 +375,11 @@ def main(ctx):
     def judge_ident(row, verdict, stage, ok, exc, aname):
         names = [D.render_name(n) for n in row['list']]
         wanted = D.render_name(row['wanted'])
+        if row['entry'] == 'sshsig_pat':
+            names = 'line principals ' + D._pat_text(row['plist']) + \
+                ('' if row['nslist'][0]['a'] == '<absent>' else
+                 ' namespaces="' + D._pat_text(row['nslist']) + '"') + \
+                (' cert-authority' if row['ca'] else '')
         what = (f'entry={row["entry"]} type={row["ctype"]}/{row["want"]} '
                 f'principals={names!r} wanted={wanted!r} window='
                 f'[{D.TIMEPT[row["after"]]}, {D.TIMEPT[row["before"]]}) '
@@ -373,6 +412,36 @@ def main(ctx):
             n_acc += ok
             ctx.count(('ident', aname, ri))
             judge_ident(row, verdict, stage, ok, exc, aname)
+    # ssh-keygen -Y verify as second opinion on the pattern-list rows
+    if D.SSH_KEYGEN and only.rp is None:
+        scr2 = D.Scratch(tlc.WORK, 'c16_pat_')
+        try:
+            w = iworlds.get(('ssh-ed25519', b'ssh-ed25519')) or \
+                D.IdentWorld('ssh-ed25519', b'ssh-ed25519')
+            agree = differ = 0
+            diffs = []
+            pat = [r for r in ident_rows if r[0]['entry'] == 'sshsig_pat'
+                   and not r[0]['ca']]
+            for pi, (row, verdict, stage) in enumerate(pat):
+                wanted = D.render_name(row['wanted'])
+                if pi % (6 if quick else 1) or not wanted:
+                    continue
+                text, sig = w.pat_line(row)
+                r = D.keygen_verify(scr2, D.MSG, D.armor(sig), text + '\n',
+                                    D.TIMEPT[3], principal=wanted)
+                ctx.count(('keygen-pat', pi), nontrivial=False)
+                if r == (verdict == 'accept'):
+                    agree += 1
+                else:
+                    differ += 1
+                    diffs.append((D._pat_text(row['plist']),
+                                  D._pat_text(row['nslist']), wanted, r,
+                                  verdict))
+            ctx.notes.append(f'ssh-keygen -Y verify on pattern-list rows: '
+                             f'agrees with the rule on {agree}, differs on '
+                             f'{differ} {diffs[:4]}')
+        finally:
+            scr2.close()
     live_algs = algs[:1] if quick else [a for a in algs if a[0] in
                                         ('ed25519', 'ecdsa256',
                                          'rsa-sha2-512')]
